@@ -464,12 +464,8 @@ class Registration(Endpoint):
         _previous = _context.cdb[client_id] if _had_previous else None
         _context.cdb[client_id] = _cinfo
         _stub = _cinfo
-        _cinfo = self.do_client_registration(
-            request,
-            client_id,
-            ignore=["redirect_uris", "policy_uri", "logo_uri", "tos_uri"],
-        )
-        if isinstance(_cinfo, ResponseMessage):
+
+        def _rollback():
             # A refused registration leaves nothing behind
             if _had_previous:
                 _context.cdb[client_id] = _previous
@@ -478,12 +474,29 @@ class Registration(Endpoint):
             _rat = _stub.get("registration_access_token")
             if _rat in _context.registration_access_token:
                 del _context.registration_access_token[_rat]
-            return _cinfo
+            if not _had_previous:
+                _kj = self.upstream_get("attribute", "keyjar")
+                if _kj is not None and client_id in _kj:
+                    del _kj[client_id]
 
-        args = dict([(k, v) for k, v in _cinfo.items() if k in self.response_cls.c_param])
+        try:
+            _cinfo = self.do_client_registration(
+                request,
+                client_id,
+                ignore=["redirect_uris", "policy_uri", "logo_uri", "tos_uri"],
+            )
+            if isinstance(_cinfo, ResponseMessage):
+                _rollback()
+                return _cinfo
 
-        comb_uri(args)
-        response = self.response_cls(**args)
+            args = dict([(k, v) for k, v in _cinfo.items() if k in self.response_cls.c_param])
+
+            comb_uri(args)
+            response = self.response_cls(**args)
+        except Exception:
+            # refused by way of an exception: same clean-up as for a refusal message
+            _rollback()
+            raise
 
         # Add the client_secret as a symmetric key to the key jar
         if client_secret:
